@@ -202,6 +202,25 @@ def grep_audit():
     return problems
 
 
+def run_coqchk(prop):
+    """Thorough tier: independent re-check of the compiled closure of Cxx/Props.vo; cached by .vo hash."""
+    vos = sorted(glob.glob(os.path.join(COQ, prop, "*.vo")) + glob.glob(os.path.join(COQ, "lib", "*.vo")) +
+                 glob.glob(os.path.join(COQ, "gen", "*.vo")))
+    h = hashlib.sha256()
+    for v in vos:
+        h.update(open(v, "rb").read())
+    cache = os.path.join(V, "work", "coqchk-%s-%s.txt" % (prop, h.hexdigest()[:16]))
+    if os.path.exists(cache):
+        return open(cache).read()
+    with Lock("coq.lock"):
+        rc, out = sh(["coqchk", "-silent", "-o", "-Q", ".", "V", "V.%s.Props" % prop], cwd=COQ, timeout=3000)
+    res = ("rc=%d\n" % rc) + out[-4000:]
+    if rc == 0:
+        with open(cache, "w") as f:
+            f.write(res)
+    return res
+
+
 # ------------------------------------------------------------------ harness + evaluation
 
 def run_harness(prop, conf, tier, seed, outdir, replay_ids=None):
@@ -328,6 +347,7 @@ def main(argv):
     obligations = 0
     discharged = 0
     audit = None
+    coqchk_summary = ""
     if rc != 0:
         gen_related = "gen/" in out or "Tables" in out or prop + "/Oblig" in out
         m = re.search(r'File "([^"]+)", line (\d+)', out)
@@ -345,6 +365,11 @@ def main(argv):
             framework_errors.append("assumption audit: %s %s" % (audit["problems"], gp))
         else:
             discharged = obligations
+        if tier == "thorough" and not ALT and not a.replay:
+            chk = run_coqchk(prop)
+            coqchk_summary = chk
+            if not chk.startswith("rc=0"):
+                framework_errors.append("coqchk failed: " + chk[-1500:])
 
     # 2. harness
     meta = {}
@@ -433,6 +458,7 @@ def main(argv):
             harness_wall_s=round(hwall, 1),
             extra=meta.get("extra", {}),
             partial=conf.get("partial", ""),
+            coqchk=(coqchk_summary[-1500:] if coqchk_summary else "not run in this tier"),
         ),
         assumptions=conf.get("assumptions", []),
         wall_s=round(wall, 1),
